@@ -123,6 +123,7 @@ m("M71", ["C15"], "ast/code_writer_comments.go", "\t\t} else if i == 0 {\n\t\t\t
 m("M90", ["C02", "C01"], "parser/parser_functions.go", "if p.CurrentToken.Type == token.INCREMENT || p.CurrentToken.Type == token.DECREMENT {", "if _, isPostfix := left.(*ast.PostfixExpression); isPostfix {", note="nested postfix update followed by a line-leading ( or [ continues again (fix 008663d undone)")
 m("M91", ["C06", "C08"], "lexer/lexer.go", 'strings.TrimRight(comment.String(), " \\t\\r")', 'strings.TrimRight(comment.String(), " \\t")', note="CR of a CRLF line end stays in the comment text (fix aa81149 undone)")
 m("M92", ["C06"], "lexer/lexer.go", 'strings.TrimRight(comment.String(), " \\t\\r")', 'strings.TrimRight(comment.String(), " \\r")', note="trailing tabs stay in the comment text (fix 54c3eeb undone)")
+m("M93", ["C15", "C06"], "lexer/lexer.go", 'text = " "', 'text = ""', note="comment without text recorded as a line break again (fix 6de87b4 undone)")
 m("M89", ["C15"], "ast/ast.go", "\tcw.WriteLeadingComments(p.EOF.LeadingComments)\n", "", note="comments before end of input dropped again")
 # ---- context (C16)
 m("M72", ["C16"], "parser/parser_functions.go", "\tp.PushContext(FunctionContext)\n\tdefer p.PopContext()\n\tfe.Body = p.ParseBlockStatement()", "\tp.PushContext(FunctionContext)\n\tfe.Body = p.ParseBlockStatement()", note="function expressions never pop their context")
